@@ -1,0 +1,30 @@
+//go:build verif
+
+// Contracts for package searcher: the bounds of a numeric range search (read by /verif/gocv;
+// comment-only effect with the verif tag off).
+//
+// C07: NewNumericRangeSearcher turns (min, max, inclusiveMin, inclusiveMax), with nil meaning an
+// open end, into a closed interval [minInt64, maxInt64] of sortable integer codes and hands it to
+// splitInt64Range (which is proved to cover exactly that interval, see zz_verif_contracts.go).
+// Proved here, pointwise for an arbitrary value gv: the code of gv lies in the interval iff gv
+// satisfies the bounds with their inclusive flags - for all values and bounds except NaN and
+// negative zero (which the encoding places just below +0, as the property says). Everything after
+// the call of splitInt64Range (dictionary filtering, the multi-term searcher) is not under contract.
+
+package searcher
+
+//@ assume func index.IndexReaderContains.FieldDictContains(r, field)
+//@ assume func index.FieldDictContains.BytesRead(d)
+//@ spec plainFloat(f float64) bool = !isNaN(f) && math.Float64bits(f) != 0x8000000000000000
+
+//@ func NewNumericRangeSearcher
+//@   props C07
+//@   mode bv
+//@   ghost gv float64
+//@   requires plainFloat(gv) && implies(min != nil, plainFloat(*min)) && implies(max != nil, plainFloat(*max))
+// the bounds as given by the caller: a nil bound is the infinity of its side, a nil flag means
+// inclusive for min and exclusive for max
+//@   at call splitInt64Range#0: assert iff(minInt64 <= numeric.Float64ToInt64(gv) && numeric.Float64ToInt64(gv) <= maxInt64, \
+//@       ite(ite(old(inclusiveMin) == nil, true, old(*inclusiveMin)), gv >= ite(old(min) == nil, math.Inf(-1), old(*min)), gv > ite(old(min) == nil, math.Inf(-1), old(*min))) && \
+//@       ite(ite(old(inclusiveMax) == nil, false, old(*inclusiveMax)), gv <= ite(old(max) == nil, math.Inf(1), old(*max)), gv < ite(old(max) == nil, math.Inf(1), old(*max))))
+//@   cutafter call splitInt64Range#0
